@@ -121,6 +121,7 @@ class MipsArch(Architecture):
 
         # Return
         yield instructions.Jr(registers.lr)
+        yield instructions.Nop()  # Delay slot
 
     def get_callee_saved(self, frame):
         saved_registers = []
